@@ -61,6 +61,23 @@ func storeScenarios(u idpUser) []scenario {
 			cu, _ := url.Parse(cb)
 			return reqSpec{Target: cu.RequestURI(), Cookie: b.cookieHeader()}, b
 		}},
+		{name: "revalidate-fail", ops: []string{"load#1", "obtain#1", "load#2", "clear#1"}, setup: func(e *testEnv) (reqSpec, *browser) {
+			// a stale session whose refresh fails (refresh token unknown to the IdP) and whose ID token no longer validates:
+			// the request is unauthenticated and the session is cleared — also when the store's delete fails
+			b := newBrowser()
+			s := e.sessionFor(u, 2*time.Hour)
+			past := time.Now().Add(-time.Hour)
+			e.idp.mu.Lock()
+			e.idp.expOverride = &past
+			e.idp.mu.Unlock()
+			s.IDToken = e.idp.idToken(u, e.idp.refreshNonce)
+			e.idp.mu.Lock()
+			e.idp.expOverride = nil
+			e.idp.mu.Unlock()
+			s.RefreshToken = fmt.Sprintf("rt-unknown-%d", time.Now().UnixNano())
+			b.jarFromHeader(e.issueSessionCookie(s))
+			return reqSpec{Target: "/app/x", Cookie: b.cookieHeader()}, b
+		}},
 		{name: "readiness", ops: []string{"ping#1"}, setup: func(e *testEnv) (reqSpec, *browser) {
 			return reqSpec{Target: "/ready"}, newBrowser()
 		}},
@@ -146,6 +163,23 @@ func (e *testEnv) monitorStoreFault(sc scenario, plan map[string]string, dataFau
 		clears := e.rec.byOp("clear")
 		if len(clears) > 0 && clears[len(clears)-1].Err && v.Status == 302 {
 			c.violation("C13", "sign-out answered with the success redirect although the store delete failed", input)
+		}
+	}
+	if sc.name == "revalidate-fail" {
+		if len(v.Hits) > 0 {
+			c.violation("C13", "a stale session that could be neither refreshed nor re-validated was forwarded upstream", input)
+			c.violation("C12", "a stale session that could be neither refreshed nor re-validated was honoured", input)
+		}
+		// whatever the store does, the browser is told to drop the cookie (it must not keep presenting a session that failed re-validation)
+		cleared := false
+		for _, ck := range v.Cookies {
+			if isSessionCookieNameH(e.opts.Cookie.Name, ck.Name) && (ck.MaxAge < 0 || ck.Value == "") {
+				cleared = true
+			}
+		}
+		if !cleared && !faulted("load#1") && !faulted("obtain#1") && !faulted("load#2") {
+			c.violation("C12", "re-validation of a stale session failed but the response does not clear the session cookie", input)
+			c.violation("C13", "re-validation of a stale session failed but the response does not clear the session cookie", input)
 		}
 	}
 	if sc.name == "readiness" {
@@ -325,6 +359,20 @@ func init() {
 						}
 						c.count("redisfault:hit")
 						input := map[string]interface{}{"scenario": sc.name, "redis_command_failed": cmd, "response": real}
+						if sc.name == "revalidate-fail" {
+							cleared := false
+							for _, ck := range v.Cookies {
+								if isSessionCookieNameH(e.opts.Cookie.Name, ck.Name) && (ck.MaxAge < 0 || ck.Value == "") {
+									cleared = true
+								}
+							}
+							if len(v.Hits) > 0 {
+								c.violation("C12", "a stale session that could be neither refreshed nor re-validated was honoured (Redis "+cmd+" failing)", input)
+							} else if !cleared && cmd == "DEL" {
+								c.violation("C12", "re-validation of a stale session failed and the store delete failed: the response does not clear the session cookie, so the browser keeps presenting it", input)
+								c.violation("C13", "re-validation failed and the store delete failed: the session cookie is not cleared", input)
+							}
+						}
 						switch {
 						case cmd == "SET" && sc.name == "refresh" && len(v.Hits) > 0:
 							c.known("C13", "C13-refresh-save-failure-served", "refresh succeeded, Redis SET failed, request forwarded")
@@ -594,6 +642,17 @@ func init() {
 						b.jarFromHeader(e.issueSessionCookie(s))
 						return reqSpec{Target: "/app/x", Cookie: b.cookieHeader()}, b
 					}},
+					{"refresh-expired", []string{"/token"}, func() (reqSpec, *browser) {
+						// like "refresh", but the stored session's own expiry (ExpiresOn) has passed: only a SUCCESSFUL refresh may revive it
+						b := newBrowser()
+						s := e.sessionFor(u, 2*time.Hour)
+						past := time.Now().Add(-10 * time.Minute)
+						s.ExpiresOn = &past
+						s.RefreshToken = fmt.Sprintf("rt-ix-%d", time.Now().UnixNano())
+						e.registerRT(s.RefreshToken, u)
+						b.jarFromHeader(e.issueSessionCookie(s))
+						return reqSpec{Target: "/app/x", Cookie: b.cookieHeader()}, b
+					}},
 					{"bearer", []string{"/keys"}, func() (reqSpec, *browser) {
 						return reqSpec{Target: "/app/x", Header: http.Header{"Authorization": {"Bearer " + e.idp.idToken(u, "")}}}, newBrowser()
 					}},
@@ -604,6 +663,10 @@ func init() {
 					}
 					c.casen(fmt.Sprintf("c14|%v|%v|%s|%s", redis, audClaims, flow, fault), flow+" "+fault+" => "+real)
 					input := map[string]interface{}{"flow": flow, "fault": fault, "response": real, "cfg": fmt.Sprintf("%+v", cfg)}
+					if v.Panicked {
+						// "... and keeps handling other requests without crashing"
+						c.violation("C14", "request handling crashed on an identity-provider answer", map[string]interface{}{"flow": flow, "fault": fault, "panic": firstLines(e.lastPanic, 12)})
+					}
 					est := hasSessionSet(v, e.opts.Cookie.Name)
 					switch flow {
 					case "login":
@@ -618,6 +681,13 @@ func init() {
 						// refresh failure may keep the OLD session only if it re-validates; it must never be EXTENDED
 						if mustFail && est {
 							c.violation("C14", "session extended (re-issued) from a failed refresh", input)
+						}
+					case "refresh-expired":
+						if mustFail && (est || len(v.Hits) > 0) {
+							c.violation("C14", "a session whose own expiry has passed was served / extended although its refresh failed (nothing from a failed refresh may revive it)", input)
+						}
+						if !mustFail && fault == "none" && len(v.Hits) == 0 {
+							c.violation("HARNESS", "an expired session with a working refresh was not revived", input)
 						}
 					}
 					if mustFail {
@@ -652,7 +722,7 @@ func init() {
 							resetIDP(e.idp)
 							// a fault on /keys only matters when keys are not cached; on /userinfo only when consulted
 							must := ep == "/token"
-							if fl.name == "refresh" && k.name == "no-id-token" {
+							if (fl.name == "refresh" || fl.name == "refresh-expired") && k.name == "no-id-token" {
 								must = false // a refresh response without id_token legitimately keeps the old identity
 							}
 							check(fl.name, ep+":"+k.name, rs, b, v, real, must)
@@ -662,7 +732,7 @@ func init() {
 					for _, cf := range claimFaults {
 						var rs reqSpec
 						var b *browser
-						if fl.name == "refresh" {
+						if fl.name == "refresh" || fl.name == "refresh-expired" {
 							// the stored session is minted clean; the REFRESH RESPONSE carries the faulted id_token
 							rs, b = fl.setup()
 							e.idp.mu.Lock()
@@ -684,7 +754,7 @@ func init() {
 						case "email-absent":
 							must = fl.name == "login" // bearer falls back to sub; refresh keeps identity
 						}
-						if fl.name == "refresh" {
+						if fl.name == "refresh" || fl.name == "refresh-expired" {
 							switch cf.name {
 							case "email-absent":
 								must = false // a refreshed token without an e-mail keeps the stored identity
@@ -733,7 +803,8 @@ func init() {
 				// Sweeps over the REAL token-endpoint answer (login and refresh): every strict prefix of the body
 				// (truncated JSON at every byte position) and every single-character corruption of the id_token
 				// must create / extend no session.  quick: evenly spaced sample + boundaries; thorough: every position.
-				for _, fl := range flows[:2] {
+				for _, fl := range []int{0, 1} {
+					fl := flows[fl]
 					// learn the body length and the id_token span from one clean answer
 					var clean []byte
 					e.idp.mu.Lock()
